@@ -96,8 +96,8 @@ def sites(R):
     R.ob('C09.sites', 'no exception escapes the event iterator', not toks,
          'under the fault model %s can propagate out of run()' % toks, func=q, node=None, construct='run escapes %s' % toks)
     # publication point
-    pub = [n for n in g.live_nodes() if n.kind == 'stmt' and isinstance(n.ast, ast.Assign) and U(n.ast.targets[0]) == 'self._sock'
-           and U(n.ast.value) != 'None']
+    from .common import sock_publications
+    pub = sock_publications(g)
     need(len(pub) == 1, 'run(): publication `self._sock = sock` not found')
     after = g.succ_reach(pub[0])
     cs = [n for (n, _) in calls_to(R, g, S + '._close_socket')]
